@@ -41,7 +41,13 @@ TCall == /\ IsEvent("call") /\ Call(Rec[l].id, Rec[l].via, Rec[l].k, Rec[l].del)
 TRetOk ==
     /\ IsEvent("ret") /\ Rec[l].res = "ok"
     /\ Rec[l].id \in Committed
-    /\ AnswerOk(Rec[l].id)
+    \* AnswerOk without its echo record: no step of this trace specification ever handles an echo (the follower's
+    \* echo is bound to the code by the node-level replay, not by cluster traces), and keeping the records - whose
+    \* presence depends on the silently chosen leader - only multiplies the states (2^n after n routed writes)
+    /\ LET id == Rec[l].id IN
+         /\ id \in DOMAIN reqs /\ reqs[id].st = "sent" /\ up[reqs[id].via]
+         /\ reqs' = [reqs EXCEPT ![id].st = "ok"]
+    /\ UNCHANGED <<clog, up, applied, tmp, echo, lost, snap, leader>>
 TRetErr == /\ IsEvent("ret") /\ Rec[l].res # "ok" /\ AnswerErr(Rec[l].id)
 TCrash == /\ IsEvent("crash") /\ Crash(Rec[l].n)
 TRestart == /\ IsEvent("restart") /\ Restart(Rec[l].n)
